@@ -281,7 +281,22 @@ class Ctx:
         """a signal object holding (values, dt) that got there through a history (gen.aged_signal); the kind is counted in the input
         distribution and attached to every failure recorded afterwards (facts.last_object_history)"""
         import gen
-        kind, obj = gen.aged_signal(self.rng, cls, values, dt, **kw)
+
+        def pick(kinds):
+            # stratified: every history kind comes round within len(kinds) consecutive calls (in an order drawn once per run), so that a
+            # module with only a handful of object-level cases still meets every kind — detection must not depend on the luck of the draw
+            if not hasattr(self, '_aged_order'):
+                self._aged_order, self._aged_i = {}, 0
+            key = tuple(kinds)
+            if key not in self._aged_order:
+                order = list(kinds)
+                self.rng.shuffle(order)
+                self._aged_order[key] = order
+            order = self._aged_order[key]
+            k = order[self._aged_i % len(order)]
+            self._aged_i += 1
+            return k
+        kind, obj = gen.aged_signal(self.rng, cls, values, dt, _pick=pick, **kw)
         self.hist('object-history/' + kind)
         self.last_object_history = kind
         return obj
